@@ -287,4 +287,45 @@ def mdIter (M : Md) (dt : Rat) (V bv : Nat → Rat) : Nat → (Nat → Rat) → 
   | 0, c => c
   | n + 1, c => mdIter M dt V bv n (mdStep M dt V bv c)
 
+/-! ### decidable hypothesis checkers (evaluated by the driver on every case) -/
+
+def boundsB (T : Topo) (nf nc : Nat) : Bool := T.all (fun i => decide (i.face < nf) && decide (i.cell < nc))
+
+/-- every face is interior or a Neumann face with zero data -/
+def closedB (P : Pb) (nf : Nat) (bv : Nat → Rat) : Bool :=
+  (List.range nf).all (fun f => decide (Interior P.T f) || (P.isNeu f && decide (bv f = 0)))
+
+/-- all hypotheses of `transport_conserves` -/
+def consHypB (P : Pb) (nf nc : Nat) (V bv : Nat → Rat) : Bool :=
+  wfB P.T && boundsB P.T nf nc && closedB P nf bv && (List.range nc).all (fun i => decide (V i ≠ 0))
+
+/-- all hypotheses of `transport_maximum_principle_inflow` for given bounds `m`, `M` -/
+def mpHypB (P : Pb) (nc : Nat) (dt : Rat) (V bv c : Nat → Rat) (m M : Rat) : Bool :=
+  wfB P.T && P.T.all (fun i => decide (i.cell < nc)) && decide (0 ≤ dt) &&
+  (List.range nc).all (fun i => decide (0 < V i) && decide (divAt P.T P.q i = 0) &&
+    decide (dt * outflow P.T P.q i ≤ V i) && decide (m ≤ c i) && decide (c i ≤ M)) &&
+  P.T.all (fun i =>
+    (!P.isNeu i.face || (decide (P.q i.face = 0) && decide (bv i.face = 0))) &&
+    (decide (P.q i.face = 0) ||
+      (!upErr P i.face && (!inflowDir P i.face || (decide (m ≤ bv i.face) && decide (bv i.face ≤ M))))))
+
+/-- the extra hypotheses of `md_transport_conserves` on the mortar matching -/
+def mdHypB (M : Md) (nc : Nat) : Bool :=
+  (List.range M.nm).all (fun m => decide (M.sc m < nc) && decide (cntPos M.P.T (M.pf m) + cntNeg M.P.T (M.pf m) = 1))
+
+/-! ### `Upwind.darcy_flux`: normal flux of a constant velocity field
+
+`face_apertures = (|cell_faces| @ cell_apertures) / bincount(rows)` (mean aperture of the adjacent cells, 1 if
+no apertures are given), `flux[f] = face_normals[:, f] · (face_apertures[f] * beta)`. -/
+
+def cntFace (T : Topo) (f : Nat) : Rat := sumOver T (fun i => if i.face = f then 1 else 0)
+
+def faceAperture (T : Topo) (ap : Option (Nat → Rat)) (f : Nat) : Rat :=
+  match ap with
+  | none => 1
+  | some a => sumOver T (fun i => if i.face = f then absR i.sgn * a i.cell else 0) / cntFace T f
+
+def darcyFlux (T : Topo) (nx ny nz : Nat → Rat) (bx by' bz : Rat) (ap : Option (Nat → Rat)) (f : Nat) : Rat :=
+  nx f * (faceAperture T ap f * bx) + ny f * (faceAperture T ap f * by') + nz f * (faceAperture T ap f * bz)
+
 end PorepyVerif.C17
